@@ -283,6 +283,9 @@ pub struct SnapCheck<'a> {
     pub cfg: &'a Cfg,
     pub stats: &'a mut crate::exec::Stats,
     pub seen: BTreeSet<(u64, usize, usize)>,
+    /// replay of one narrowed fault point (or a property that asks for it): do every follow-up
+    /// check on every state instead of on a (call-index selected) quarter of them
+    pub all_followups: bool,
 }
 
 impl SnapCheck<'_> {
@@ -336,9 +339,27 @@ impl SnapCheck<'_> {
                 }
             }
         }
-        // recovery must leave a healthy database: (a) life goes on - write, close, reopen
-        if self.seen.len() % 4 == 2 && !self.cfg.manual_persist && self.cfg.opts.iter().all(|o| !o.manual_persist) && self.cfg.filtered.is_empty() {
-            let salt = self.seen.len() as u64;
+        // recovery must leave a healthy database: (a) reopen once more, same content
+        if self.all_followups || s.call % 4 == 0 {
+            let again = std::panic::catch_unwind(std::panic::AssertUnwindSafe(|| faults::read_dir_state(&s.dir, self.cfg)));
+            match again {
+                Ok(Ok(r2)) if r2 == real => {
+                    self.stats.inc("states_reopened_twice");
+                }
+                Ok(Ok(r2)) => {
+                    return Err(Violation::new(clause, format!("{}: second reopen of the recovered directory shows {} instead of {}", s.desc, faults::brief_maps(&r2), faults::brief_maps(&real))));
+                }
+                Ok(Err(e)) => {
+                    return Err(Violation::new(clause, format!("{}: second reopen of the recovered directory fails: {e}", s.desc)));
+                }
+                Err(_) => {
+                    return Err(Violation::new(clause, format!("{}: second reopen of the recovered directory panics", s.desc)));
+                }
+            }
+        }
+        // (b) life goes on - write, close, reopen (changes the directory, hence last)
+        if (self.all_followups || s.call % 4 == 2) && !self.cfg.manual_persist && self.cfg.opts.iter().all(|o| !o.manual_persist) && self.cfg.filtered.is_empty() {
+            let salt = u64::from(s.call);
             let r = std::panic::catch_unwind(std::panic::AssertUnwindSafe(|| {
                 let expect = faults::write_after_recovery(&s.dir, self.cfg, &real, salt)?;
                 let got = faults::read_dir_state(&s.dir, self.cfg)?;
@@ -356,24 +377,6 @@ impl SnapCheck<'_> {
                 }
                 Err(_) => {
                     return Err(Violation::new(clause, format!("{}: writing to / reopening the recovered directory panics", s.desc)));
-                }
-            }
-        }
-        // (b) reopen once more, same content
-        if self.seen.len() % 4 == 0 {
-            let again = std::panic::catch_unwind(std::panic::AssertUnwindSafe(|| faults::read_dir_state(&s.dir, self.cfg)));
-            match again {
-                Ok(Ok(r2)) if r2 == real => {
-                    self.stats.inc("states_reopened_twice");
-                }
-                Ok(Ok(r2)) => {
-                    return Err(Violation::new(clause, format!("{}: second reopen of the recovered directory shows {} instead of {}", s.desc, faults::brief_maps(&r2), faults::brief_maps(&real))));
-                }
-                Ok(Err(e)) => {
-                    return Err(Violation::new(clause, format!("{}: second reopen of the recovered directory fails: {e}", s.desc)));
-                }
-                Err(_) => {
-                    return Err(Violation::new(clause, format!("{}: second reopen of the recovered directory panics", s.desc)));
                 }
             }
         }
@@ -419,6 +422,7 @@ pub fn run_faulty(case: &Case, dir: PathBuf) -> Outcome {
     let manual_crash = case.prop == "C09" && !is_power;
     let clause = match case.prop.as_str() {
         "C02" => "crash-prefix",
+        "C11" => "crash-then-supersede",
         "C09" if manual_crash => "manual-persist-crash-durability",
         "C09" => "power-loss-durability",
         "C10" => "journal-eviction",
@@ -427,6 +431,11 @@ pub fn run_faulty(case: &Case, dir: PathBuf) -> Outcome {
     let mut violation: Option<Violation> = None;
     let mut narrowed_fault = None;
     let mut chk_stats = crate::exec::Stats::default();
+    let all_followups = case.prop == "C11"
+        || match &case.fault {
+            Fault::Crash { points: Some(p), .. } | Fault::Power { points: Some(p), .. } => !p.is_empty(),
+            _ => false,
+        };
     let mut seen = BTreeSet::new();
     // power loss: index into history below which everything is known durable
     let mut durable = 0usize;
@@ -459,7 +468,7 @@ pub fn run_faulty(case: &Case, dir: PathBuf) -> Outcome {
                 break;
             }
             let snaps: Vec<Snap> = std::mem::take(&mut mon.lock().unwrap().snaps);
-            let mut sc = SnapCheck { cfg: &case.cfg, stats: &mut chk_stats, seen: std::mem::take(&mut seen) };
+            let mut sc = SnapCheck { cfg: &case.cfg, stats: &mut chk_stats, seen: std::mem::take(&mut seen), all_followups };
             for s in &snaps {
                 let (lo, hi, strict) = if is_power || manual_crash { (durable.min(before), after, false) } else { (before, after, true) };
                 if let Err(mut v) = sc.check(s, &ex.history, lo, hi, strict, clause) {
@@ -574,7 +583,7 @@ pub fn run_faulty(case: &Case, dir: PathBuf) -> Outcome {
         if crate::fsutil::copy_tree(&live, &d).is_ok() {
             let s = Snap { dir: d, call: u32::MAX, kind: "crash".into(), desc: "after the last op".into(), torn: None };
             let n = ex.acked();
-            let mut sc = SnapCheck { cfg: &case.cfg, stats: &mut chk_stats, seen: std::mem::take(&mut seen) };
+            let mut sc = SnapCheck { cfg: &case.cfg, stats: &mut chk_stats, seen: std::mem::take(&mut seen), all_followups };
             if let Err(v) = sc.check(&s, &ex.history, durable.min(n), n, false, clause) {
                 violation = Some(v);
             }
@@ -584,7 +593,7 @@ pub fn run_faulty(case: &Case, dir: PathBuf) -> Outcome {
         if crate::fsutil::copy_tree(&live, &d).is_ok() {
             let s = Snap { dir: d, call: u32::MAX, kind: "crash".into(), desc: "after the last op".into(), torn: None };
             let n = ex.acked();
-            let mut sc = SnapCheck { cfg: &case.cfg, stats: &mut chk_stats, seen: std::mem::take(&mut seen) };
+            let mut sc = SnapCheck { cfg: &case.cfg, stats: &mut chk_stats, seen: std::mem::take(&mut seen), all_followups };
             if let Err(v) = sc.check(&s, &ex.history, n, n, true, clause) {
                 violation = Some(v);
             }
